@@ -77,6 +77,11 @@ NestVals == { Obj(<<"n", "o">>, <<N(4), Obj(<<"a">>, <<N(4)>>)>>),
               Obj(<<"o">>, <<Obj(<<"b">>, <<N(4)>>)>>) }                                \* o.a (required) is missing
 FileVals == { Obj(<<"s">>, <<St(<<"a">>)>>), Obj(<<"ls", "s">>, <<Arr(<<St(<<"a">>)>>), St(<<"b">>)>>), Obj(<<"ls">>, <<Arr(<<St(<<"a">>), St(<<"b">>)>>)>>),
               Obj(<<"ro", "s">>, <<St(<<"v">>), St(<<"a">>)>>) }
+(* bodies for S9: booleans, numbers with and without a fraction; texts that are not of the declared type; 4.5 for the integer *)
+PrimVals == { Obj(<<"b", "f">>, <<Bool(TRUE), N(18)>>), Obj(<<"b", "n">>, <<Bool(FALSE), N(4)>>), Obj(<<"f">>, <<N(16)>>), Obj(<<"f", "n">>, <<N(-6), N(-8)>>),
+              Obj(<<"b">>, <<St(<<"x">>)>>), Obj(<<"f">>, <<St(<<"x">>)>>), Obj(<<"n">>, <<N(18)>>), Obj(<<"b">>, <<N(4)>>) }
+(* text/csv bodies in canonical form (no quoting, every record ended by a line feed): the decoded string is the text *)
+CsvVals == { St(<<"a", ",", "b", "\n">>), St(<<"a", "\n", "b", "\n">>), St(<<"a", "\n">>) }
 (* texts that are not an encoding of any value in the syntax of their media type *)
 MalKinds == {<<"json", "truncated">>, <<"json", "trailing">>, <<"json", "two">>, <<"json", "bareword">>, <<"json", "trailcomma">>, <<"json", "empty_ws">>,
              <<"form", "badpct">>, <<"form", "badpct_end">>,
@@ -132,6 +137,15 @@ Init ==
    \* an object-valued property of a urlencoded body, style deepObject (o[a]=4); directly and below a typed allOf
    \/ \E v \in NestVals, w \in {"plain", "allOfT"} :
         case = [part |-> "decode", family |-> "form", schema |-> "S8", wrap |-> w, v |-> v, excludeRO |-> FALSE, enc |-> "deep", clen |-> "known", setDefaults |-> FALSE]
+   \* booleans and numbers under every decoder (multipart: bare parts and application/json parts)
+   \/ \E fam \in {"json", "yaml", "form", "multipart"}, v \in PrimVals, pct \in {"none", "json"} :
+        /\ (pct = "json" => fam = "multipart")
+        \* left open: the text 1 sent for a boolean (a bare text has no type of its own: whether it spells the number or "true" is the reader's choice)
+        /\ ((fam = "form" \/ (fam = "multipart" /\ pct = "none")) => ~(HasKey(v, "b") /\ Get(v, "b").t = "num"))
+        /\ case = [part |-> "decode", family |-> fam, schema |-> "S9", v |-> v, excludeRO |-> FALSE, enc |-> "default", clen |-> "known", setDefaults |-> FALSE, partCT |-> pct]
+   \* text/csv
+   \/ \E sc \in {"T3", "T4", "T7"}, v \in CsvVals :
+        case = [part |-> "decode", family |-> "csv", schema |-> sc, v |-> v, excludeRO |-> FALSE, enc |-> "default", clen |-> "known", setDefaults |-> FALSE]
    \* texts that encode nothing: rejected whatever the schema (S2: the object schema; E: the empty schema)
    \/ \E mk \in MalKinds, sc \in {"S2", "E"} :
         /\ (mk[1] \in {"form", "multipart"} => sc = "S2")
